@@ -209,8 +209,12 @@ func (p *Profile) updater(t *rapid.T, s *Session, bulk bool) *cs.Updater {
 		if p.IdRewrite && rapid.IntRange(0, 3).Draw(t, "idrw") == 0 {
 			u.Field = "_id"
 			u.Value = cs.V{X: gen.Id(rapid.IntRange(0, 30).Draw(t, "newid"))}
-			if rapid.IntRange(0, 3).Draw(t, "idbad") == 0 {
+			switch rapid.IntRange(0, 5).Draw(t, "idbad") {
+			case 0:
 				u.Value = cs.V{X: rapid.SampledFrom(gen.MalformedIds).Draw(t, "badid")}
+			case 1, 2:
+				// another spelling of an id that may well be the target's own: the upper-case form
+				u.Value = cs.V{X: gen.UpperId(10 + rapid.IntRange(0, 5).Draw(t, "upperk"))}
 			}
 		} else if p.BadDocs && rapid.IntRange(0, 7).Draw(t, "baddoc") == 0 {
 			u.Field = "_expiresAt"
@@ -408,7 +412,12 @@ func (p *Profile) Draw(t *rapid.T, s *Session) cs.Op {
 		return cs.Op{Kind: kind, Q: p.bulkQuery(t, s, coll)}
 	case "find", "count", "exists", "findfirst":
 		coll := p.liveColl(t, s)
-		return cs.Op{Kind: kind, Q: p.query(t, s, coll)}
+		q := p.query(t, s, coll)
+		if s.M.Colls[coll] == nil && rapid.IntRange(0, 2).Draw(t, "missing-limit0") == 0 {
+			zero := 0
+			q.Limit = &zero // a window that needs no document still needs an existing collection
+		}
+		return cs.Op{Kind: kind, Q: q}
 	case "foreach":
 		coll := p.liveColl(t, s)
 		return cs.Op{Kind: kind, Q: p.query(t, s, coll), StopAt: rapid.SampledFrom([]int{0, 0, 1, 2, 3}).Draw(t, "stopat")}
